@@ -396,6 +396,14 @@ impl<'r> G<'r> {
             let new_len = dropped.len();
             self.p.fault_sites.push(FaultSite { file: self.cur, span: (s, e), replacement: dropped, class: "operator-arity", expect: (s, s + new_len) });
         }
+        // one operand too many for the operators that take exactly two (or, !subst, three): `op(a, b, b)`
+        let strictly_fixed = matches!(op, "!sub" | "!shl" | "!sra" | "!srl" | "!subst") || arity_class == "arity:comparison";
+        if strictly_fixed && n >= 2 {
+            let text = self.files[self.cur].text.clone();
+            let surplus = format!("{}, {})", &text[s..e - 1], &text[last_arg.0..last_arg.1]);
+            let new_len = surplus.len();
+            self.p.fault_sites.push(FaultSite { file: self.cur, span: (s, e), replacement: surplus, class: "operator-arity-surplus", expect: (s, s + new_len) });
+        }
         self.p.features.push("bang:call");
     }
 
